@@ -279,6 +279,25 @@ impl<'w> Ctx<'w> {
             Expr::Binary(b) => self.binary(b),
             Expr::Index(ix) => {
                 let base = self.expr(&ix.expr)?;
+                // a buffer whose content is not represented (a struct with a checked `Deref`), or a sub-slice of one: only lengths
+                let ghost_len: Option<String> = match self.resolve(&base.ty) {
+                    Ty::Named(n) if n == "GhostLen" => Some(base.s.clone()),
+                    Ty::Named(n) if self.w.slice_len.contains_key(&n) => Some(format!("{}.{}", base.s, self.w.slice_len[&n])),
+                    _ => None,
+                };
+                if let (Some(len), Expr::Range(r)) = (&ghost_len, &*ix.index) {
+                    if matches!(r.limits, RangeLimits::Closed(_)) { return Err("inclusive range index".into()); }
+                    let lo = match &r.start { Some(s) => Some(self.expr(s)?), None => None };
+                    let hi = match &r.end { Some(s) => Some(self.expr(s)?), None => None };
+                    for x in [&lo, &hi].into_iter().flatten() { self.unify(&x.ty, &Ty::U(64))?; }
+                    let s = match (&lo, &hi) {
+                        (None, Some(h)) => format!("(← ghostTo {} {})", paren(len), paren(&h.s)),
+                        (Some(l), None) => format!("(← ghostFrom {} {})", paren(len), paren(&l.s)),
+                        (Some(l), Some(h)) => format!("(← ghostRange {} {} {})", paren(len), paren(&l.s), paren(&h.s)),
+                        (None, None) => len.clone(),
+                    };
+                    return Ok(E { s, ty: Ty::Named("GhostLen".into()), eff: true });
+                }
                 // range index: &x[a..b]
                 if let Expr::Range(r) = &*ix.index {
                     let lo = match &r.start { Some(s) => Some(self.expr(s)?), None => None };
@@ -626,6 +645,17 @@ impl<'w> Ctx<'w> {
                 let ctor = if name.ends_with("Included") { "included" } else { "excluded" };
                 Ok(E { s: format!("(Bound.{} {})", ctor, paren(&a.s)), ty: Ty::Bound(Box::new(a.ty)), eff: a.eff })
             }
+            "cast_slice_mut" | "cast_slice" | "bytemuck::cast_slice_mut" | "bytemuck::cast_slice" if c.args.len() == 1 => {
+                // `cast_slice(_mut)::<_, T>(bytes)` over a content-free slice: how many `T` there are; panics unless the length is a multiple of `size_of::<T>()`
+                let t = match &last.arguments {
+                    PathArguments::AngleBracketed(a) => a.args.iter().filter_map(|g| match g { GenericArgument::Type(t) if !matches!(t, Type::Infer(_)) => Some(t.clone()), _ => None }).last().ok_or("cast_slice without a target type")?,
+                    _ => return Err("cast_slice without a target type".into()),
+                };
+                let sz = self.size_of(&t)?;
+                let a = self.expr(&c.args[0])?;
+                if self.resolve(&a.ty) != Ty::Named("GhostLen".into()) { return Err("cast_slice of a slice with content".into()); }
+                Ok(E { s: format!("(← castSliceLen {} {})", paren(&a.s), sz), ty: Ty::Named("GhostArr".into()), eff: true })
+            }
             "Vec::new" => Ok(e("[]", Ty::Any)),
             "BinaryHeap::new" => Ok(e("[]", Ty::Heap(Box::new(Ty::Any)))),
             "Error::Merge" => Ok(e("RErr.merge", Ty::Named("RErr".into()))),
@@ -764,6 +794,11 @@ impl<'w> Ctx<'w> {
         // fully qualified: inside `def T.f` the namespace `T` is open and a field of `T` may carry the callee's name
         if sig.rec_self {
             argv.push("fuel".into());
+        }
+        // externals of a translated callee become externals of the caller, handed on in front
+        for (n, t) in sig.externs.iter().rev() {
+            if !self.used_externs.iter().any(|(m, _)| m == n) { self.used_externs.push((n.clone(), t.clone())); }
+            argv.insert(0, n.clone());
         }
         let call = if let Some(t) = &sig.ext_ty {
             if !self.used_externs.iter().any(|(n, _)| *n == sig.lean) { self.used_externs.push((sig.lean.clone(), t.clone())); }
@@ -1167,6 +1202,17 @@ impl<'w> Ctx<'w> {
                 }
                 return Ok(E { s: format!("(← Grenad.Gen.{} {})", sig.lean, argv.join(" ")), ty: sig.ret.clone(), eff: true });
             }
+        }
+        if rt == Ty::Named("GhostLen".into()) {
+            return match name.as_str() {
+                "len" => Ok(E { s: recv.s, ty: Ty::U(64), eff }),
+                "copy_from_slice" => {
+                    let a = self.expr(args[0])?;
+                    let alen = match self.resolve(&a.ty) { Ty::Bytes => format!("{}.length", paren(&a.s)), Ty::Named(n) if n == "GhostLen" => a.s.clone(), o => return Err(format!("copy_from_slice of {:?}", o)) };
+                    Ok(E { s: format!("(← copyLenCheck {} {})", paren(&recv.s), paren(&alen)), ty: Ty::Unit, eff: true })
+                }
+                o => Err(format!("`{}` on a content-free slice", o)),
+            };
         }
         match (rt.clone(), name.as_str()) {
             (Ty::Bytes | Ty::List(_), "len") => Ok(E { s: format!("{}.length", paren(&recv.s)), ty: Ty::U(64), eff }),
